@@ -422,6 +422,12 @@ func evalCase(d caseDesc) ev.Result {
 			t.omitUEID = true
 		case "nonce-stale":
 			t.nonce = refcbor.B(make([]byte, 16))
+		case "nonce-long":
+			t.nonce = refcbor.B(append(append([]byte{}, nonce...), 0))
+		case "nonce-long16":
+			t.nonce = refcbor.B(append(append([]byte{}, nonce...), nonce...))
+		case "nonce-short":
+			t.nonce = refcbor.B(nonce[:min(15, len(nonce))])
 		case "nonce-text":
 			t.nonce = &refcbor.Node{Kind: refcbor.Text, Bytes: nonce}
 		case "nonce-int":
@@ -430,6 +436,8 @@ func evalCase(d caseDesc) ev.Result {
 			t.ueid = refcbor.B(append([]byte{2}, guid[:]...))
 		case "ueid-short":
 			t.ueid = refcbor.B(append([]byte{1}, guid[:15]...))
+		case "ueid-long":
+			t.ueid = refcbor.B(append(append([]byte{1}, guid[:]...), 0))
 		case "ueid-first-byte":
 			g := append([]byte{}, guid[:]...)
 			g[0] ^= 1
@@ -551,7 +559,7 @@ func genCase(t *rapid.T) caseDesc {
 	case "signer":
 		d.Attack.Signer = rapid.SampledFrom([]string{"stranger", "owner", "device2", "otherkind"}).Draw(t, "signer")
 	case "claims":
-		d.Attack.Claim = rapid.SampledFrom([]string{"omit-nonce", "omit-ueid", "nonce-stale", "nonce-text", "nonce-int", "ueid-type", "ueid-short", "ueid-first-byte"}).Draw(t, "claim")
+		d.Attack.Claim = rapid.SampledFrom([]string{"omit-nonce", "omit-ueid", "nonce-stale", "nonce-text", "nonce-int", "nonce-long", "nonce-long", "nonce-long16", "nonce-short", "ueid-type", "ueid-short", "ueid-first-byte", "ueid-long"}).Draw(t, "claim")
 	}
 	// a registered voucher without device certificate chain: whoever asks (the device's own key, a
 	// stranger, ...) cannot be the proven device
